@@ -24,7 +24,7 @@ use rustc_hir::def::DefKind;
 use rustc_hir::def_id::{DefId, LOCAL_CRATE};
 use rustc_middle::mir::{self, *};
 use rustc_middle::ty::print::{with_no_trimmed_paths, PrintTraitRefExt};
-use rustc_middle::ty::{self, Instance, Ty, TyCtxt, TypingEnv};
+use rustc_middle::ty::{self, Instance, Ty, TyCtxt, TypeVisitableExt, TypingEnv};
 use rustc_span::Span;
 
 struct Cb;
@@ -615,6 +615,21 @@ impl<'a, 'tcx> Cx<'a, 'tcx> {
                     .filter_map(|a| a.as_type().map(|t| J::s(format!("{}", t))))
                     .collect();
                 v.push(("targs", J::Arr(targs)));
+                // size_of::<T>() / align_of::<T>() for a concrete T: record the layout facts
+                let dn = defstr(tcx, *d);
+                if dn == "std::mem::size_of" || dn == "std::mem::align_of" || dn == "core::mem::size_of" || dn == "core::mem::align_of" {
+                    if let Some(t) = args.iter().find_map(|a| a.as_type()) {
+                        if !t.has_non_region_param() {
+                            if let Ok(l) = tcx.layout_of(self.env.as_query_input(t)) {
+                                if dn.ends_with("size_of") {
+                                    v.push(("layout_value", J::Num(l.size.bytes() as i128)));
+                                } else {
+                                    v.push(("layout_value", J::Num(l.align.abi.bytes() as i128)));
+                                }
+                            }
+                        }
+                    }
+                }
                 let is_trait_item = tcx.trait_of_assoc(*d).is_some();
                 v.push(("trait_item", J::Bool(is_trait_item)));
                 if let Some(t) = tcx.trait_of_assoc(*d) {
